@@ -65,15 +65,15 @@ class EnvList(object):
         return DEFAULT_ENV
 
 
-def env(v1=KEEP, v2=KEEP, v3=KEEP, q=0):
-    return dict(v1=v1, v2=v2, v3=v3, q=q, qkind='queue')
+def env(v1=KEEP, v2=KEEP, v3=KEEP, q=0, vt=KEEP):
+    return dict(v1=v1, v2=v2, v3=v3, q=q, qkind='queue', vt=vt, tls=0)
 
 
 DEFAULT_ENV = env()
 
 
 def enc_env(e):
-    return [e['v1'], e['v2'], e['v3'], e['q']]
+    return [e['v1'], e['v2'], e['v3'], e['q'], e.get('vt', KEEP)]
 
 
 class StreamScript(object):
@@ -90,6 +90,7 @@ class StreamScript(object):
         self.in_cmd = False
         self.server = None
         self.session = None
+        self.cfg = dict(imm_ok=0)
 
     def verdict(self, slot):
         if self.cur < 0:
@@ -151,14 +152,32 @@ def reply_codes(seg):
     return tuple(codes)
 
 
-def run_impl(mx, vb, envs, chunks):
-    """-> dict(sent=bytes written, outs=[(reply codes, events)] per line (first: banner), fin, trace, unread)"""
+class HookSession(S7.TraceSession):
+    """SmtpSession + the documented Server hook handlers.STARTTLS(reply, extensions): a scripted
+    verdict may refuse STARTTLS (the session then goes on in clear text)"""
+
+    def STARTTLS(self, reply, extensions):
+        s = self._script
+        v = s.verdict('vt')
+        if v == RAISE:
+            s.ev(('starttls-hook', None))
+            raise S7.Scripted('STARTTLS hook raises')
+        if v != KEEP:
+            reply.code = str(v)
+            reply.message = 'scripted refusal'
+        s.ev(('starttls-hook', int(reply.code)))
+
+
+def run_impl(mx, vb, envs, chunks, ctx_on=False):
+    """-> dict(sent=bytes written, outs=[(reply codes, events)] per line (first: banner), fin, trace, unread).
+    ctx_on: Server(context=...) so that STARTTLS is offered; a handshake, if one is started, fails"""
     sock = EofSocket(list(chunks))
     script = StreamScript(vb, envs, sock)
     sock.script = script
     S7.CURRENT['script'] = script
     edge = SmtpEdge(None, S7.RecorderQueue(script), max_size=mx, validator_class=S7.Validators,
-                    auth=False, context=None, hostname='verif.example', session_class=S7.TraceSession)
+                    auth=False, context=S7.FakeContext(script) if ctx_on else None, hostname='verif.example',
+                    session_class=HookSession if ctx_on else S7.TraceSession)
     old = (edge_mod.Server, edge_mod.PtrLookup)
     edge_mod.Server, edge_mod.PtrLookup = StreamServer, S7.FakePtr
     exc = None
@@ -211,7 +230,7 @@ def canon_model(o):
 
 
 def model_inputs(case, chunks):
-    return [[case['mx']] if case['mx'] is not None else [], case['vb'], [enc_env(e) for e in case['envs']], b'', list(chunks)]
+    return [[case['mx']] if case['mx'] is not None else [], int(bool(case.get('ctx'))), case['vb'], [enc_env(e) for e in case['envs']], b'', list(chunks)]
 
 
 # ---------------------------------------------------------------- segmentations
@@ -245,17 +264,51 @@ def seg_cut(s, i):
     return [x for x in (s[:i], s[i:]) if x]
 
 
-def segmentations(s, rng, every_cut_upto=60, nrandom=3):
-    segs = [('whole', seg_whole(s)), ('lines', seg_lines(s)), ('bytes', seg_bytes(s))]
+def build_chunks(s, spec):
+    """segmentation spec (JSON-able, small) -> the recv() results"""
+    kind = spec[0]
+    if kind == 'whole':
+        c = seg_whole(s)
+    elif kind == 'lines':
+        c = seg_lines(s)
+    elif kind == 'bytes':
+        c = seg_bytes(s)
+    elif kind == 'fixed':
+        c = [s[i:i + spec[1]] for i in range(0, len(s), spec[1])]
+    elif kind == 'cuts':
+        c, p = [], 0
+        for q in sorted(set(spec[1])) + [len(s)]:
+            if p < q <= len(s):
+                c.append(s[p:q])
+                p = q
+    else:
+        raise ValueError(spec)
+    return cap([x for x in c if x])
+
+
+def seg_name(spec):
+    return spec[0] if len(spec) == 1 else '%s %s' % (spec[0], spec[1])
+
+
+def segmentations(case, rng, every_cut_upto=60, nrandom=3):
+    """list of segmentation specs for the stream of `case`"""
+    s = case['stream']
+    n = len(s)
+    if case.get('segs'):
+        return [tuple(x) for x in case['segs']]
+    segs = [('whole',), ('lines',), ('bytes',)]
     for k in range(nrandom):
-        segs.append(('random', seg_random(s, rng)))
-    if len(s) <= every_cut_upto:
-        for i in range(1, len(s)):
-            segs.append(('cut@%d' % i, seg_cut(s, i)))
+        if n >= 2:
+            segs.append(('cuts', sorted(set(rng.randrange(1, n) for _ in range(rng.choice([1, 1, 2, 3, 5, 9]))))))
+    if n <= every_cut_upto:
+        for i in range(1, n):
+            segs.append(('cuts', [i]))
     else:
         for k in range(2):
-            segs.append(('cut-nearline', seg_cut(s, near_line_cut(s, rng))))
-    return [(n, cap(c)) for n, c in segs]
+            segs.append(('cuts', [near_line_cut(s, rng)]))
+    for cuts in case.get('extra_cuts', ()):
+        segs.append(('cuts', sorted(cuts)))
+    return segs
 
 
 def near_line_cut(s, rng):
@@ -380,22 +433,52 @@ def gen_session(rng, profile='clean'):
 
 
 def expected_clean(case):
-    """protocol reading of a clean session (every verdict keep, well formed, SIZE limit mx):
-    the reply codes and the callback trace the property demands"""
+    """protocol reading of a clean session (every verdict keep except the STARTTLS hook, well formed,
+    SIZE limit mx, STARTTLS offered iff ctx): the reply codes and the callback trace the property demands"""
     mx = case['mx']
     reps = [220]
     tr = [('call', S7.K_BANNER, b'', (), 220)]
     stream = case['stream']
-    m = re.match(br'(?i)ehlo\s+(\S+)', stream)
-    reps.append(250)
-    tr.append(('call', S7.K_EHLO, m.group(1), (), 250))
     pos_lines = [l for l in re.findall(br'[^\n]*\n', stream)]
-    i = 1
+    i = 0
     k = 0
+    greeted = False
+    offered = bool(case.get('ctx'))
+    vt = case.get('vt', KEEP)
     while i < len(pos_lines):
         l = pos_lines[i]
         w = l.strip().upper()
-        if w.startswith(b'MAIL FROM:<S'):
+        m = re.match(br'(?i)(ehlo|helo)\s+(\S+)', l)
+        if m:
+            helo = m.group(1).upper() == b'HELO'
+            reps.append(250)
+            tr.append(('call', S7.K_HELO if helo else S7.K_EHLO, m.group(2), (), 250))
+            greeted = True
+            if helo:
+                offered = False          # Extensions.reset()
+            i += 1
+        elif w.startswith(b'STARTTLS'):
+            i += 1
+            if not offered:
+                reps.append(500)
+            elif w != b'STARTTLS':
+                reps.append(501)
+            elif not greeted:
+                reps.append(503)
+            elif vt == KEEP:             # 220, the (fake) handshake fails: 421, session closed
+                tr.append(('starttls-hook', 220))
+                reps.extend([220, 421])
+                return tuple(reps), tuple(tr), CLOSED
+            elif vt == RAISE:
+                tr.append(('starttls-hook', None))
+                reps.append(421)
+                return tuple(reps), tuple(tr), CRASHED
+            else:
+                tr.append(('starttls-hook', vt))
+                reps.append(vt)
+                if vt in (221, 421):
+                    return tuple(reps), tuple(tr), CLOSED
+        elif w.startswith(b'MAIL FROM:<S'):
             msg = case['msgs'][k]
             addr = re.search(br'<([^>]*)>', l).group(1)
             ps = ((b'BODY', b'8BITMIME'),) if b'BODY=' in l else ()
@@ -443,37 +526,50 @@ def oversize_involved(case):
     return bool(mx) and len(case['stream']) > mx
 
 
-def case_json(case, segname=None, chunks=None, other=None):
-    j = dict(stream=case['stream'], max_size=case['mx'], banner_verdict=case['vb'], envs=[enc_env(e) for e in case['envs']],
-             profile=case.get('profile'))
-    if chunks is not None:
-        j['segmentation'] = segname
-        j['chunks'] = list(chunks)
+def case_json(case, seg=None, other=None):
+    """replayable and SMALL: a generated long stream is named by its parameters, a segmentation by its spec"""
+    j = dict(max_size=case['mx'], banner_verdict=case['vb'], envs=[enc_env(e) for e in case['envs'][:40]],
+             profile=case.get('profile'), context=int(bool(case.get('ctx'))))
+    if case.get('gen'):
+        j['gen'] = case['gen']
+    else:
+        j['stream'] = case['stream']
+    if seg is not None:
+        j['segmentation'] = list(seg)
     if other is not None:
-        j['other_segmentation'] = other[0]
-        j['other_chunks'] = list(other[1])
+        j['other_segmentation'] = list(other)
     return j
 
 
+def short(b, n=300):
+    return b if len(b) <= n else b[:n // 2] + b' ...(%d bytes)... ' % (len(b) - n) + b[-n // 2:]
+
+
 def describe(r):
-    return dict(replies=[list(o[0]) for o in r['outs']], fin=FIN_NAMES.get(r['fin'], r['fin']), sent=r['sent'],
-                trace=[list(e) for e in r['trace']], exc=r.get('exc'))
+    return dict(replies=[list(o[0]) for o in r['outs']], fin=FIN_NAMES.get(r['fin'], r['fin']), sent=short(r['sent'], 600),
+                trace=[[short(x) if isinstance(x, bytes) else x for x in e] for e in r['trace']], exc=r.get('exc'))
 
 
 def key_for(case, base):
     return 'c09:size-limit-' + base if oversize_involved(case) else 'c09:' + base
 
 
+def for_model(outs):
+    """the STARTTLS hook call has no constructor in the model's event type: not compared with the model"""
+    return [(reps, tuple(e for e in evs if e[0] != 'starttls-hook')) for reps, evs in outs]
+
+
 def check_stream(ctx, case, kind, every_cut_upto=60, nrandom=3, model_all=True):
     """one stream x its segmentations: oracle 1 (all equal), oracle 2 (clean sessions), correspondence"""
     stream = case['stream']
-    segs = segmentations(stream, ctx.rng, every_cut_upto, nrandom)
+    segs = segmentations(case, ctx.rng, every_cut_upto, nrandom)
     results = []
-    for name, chunks in segs:
-        results.append((name, chunks, run_impl(case['mx'], case['vb'], case['envs'], chunks)))
+    for spec in segs:
+        chunks = build_chunks(stream, spec)
+        results.append((spec, chunks, run_impl(case['mx'], case['vb'], case['envs'], chunks, case.get('ctx'))))
     base_name, base_chunks, base = results[0]
     nontriv = any(e[0] == 'call' and e[1] == S7.K_HAVE for e in base['trace']) or any(c >= 400 for o in base['outs'] for c in o[0])
-    ctx.evaluated((kind, stream, case['mx'], repr(case['envs'])), nontrivial=nontriv)
+    ctx.evaluated((kind, case.get('gen') or stream, case['mx'], repr(case['envs'][:40])), nontrivial=nontriv)
     ctx.count('streams:' + kind)
     ctx.count('sessions-run', len(results))
     ctx.count('fin:' + FIN_NAMES.get(base['fin'], '?'))
@@ -483,15 +579,15 @@ def check_stream(ctx, case, kind, every_cut_upto=60, nrandom=3, model_all=True):
     # oracle 1: every segmentation behaves like the first one
     for name, chunks, r in results[1:]:
         if observable(r) != observable(base):
-            what = 'the same %d-byte client stream gives different server behaviour when it arrives %s than when it arrives %s: ' % (
-                len(stream), name, base_name)
+            what = 'the same %d-byte client stream gives different server behaviour when it arrives as [%s] than when it arrives as [%s]: ' % (
+                len(stream), seg_name(name), seg_name(base_name))
             if r['sent'] != base['sent']:
                 what += 'replies %r vs %r; ' % (r['sent'][-200:], base['sent'][-200:])
             if r['trace'] != base['trace']:
                 what += 'callback traces differ (%d vs %d callbacks); ' % (len(r['trace']), len(base['trace']))
             if r['fin'] != base['fin']:
                 what += 'session ends %s vs %s' % (FIN_NAMES[r['fin']], FIN_NAMES[base['fin']])
-            ctx.fail(key_for(case, 'segmentation-dependent'), case_json(case, name, chunks, (base_name, base_chunks)),
+            ctx.fail(key_for(case, 'segmentation-dependent'), case_json(case, name, base_name),
                      dict(what=what, this=describe(r), other=describe(base)))
             break
     # oracle 2: the protocol reading of a clean session
@@ -518,19 +614,21 @@ def check_stream(ctx, case, kind, every_cut_upto=60, nrandom=3, model_all=True):
                     [e[4] for e in want_tr if e[0] == 'call' and e[1] == S7.K_HAVE])
             else:
                 base_key, what = 'unexpected-behaviour', 'replies/callbacks differ from the protocol reading: replies %r expected %r' % (got_reps, want_reps)
-            ctx.fail(key_for(case, base_key), case_json(case, name, chunks),
-                     dict(what=what, got=describe(r), expected=dict(replies=list(want_reps), trace=[list(e) for e in want_tr], fin=FIN_NAMES[want_fin])))
+            ctx.fail(key_for(case, base_key), case_json(case, name),
+                     dict(what=what, got=describe(r), expected=dict(replies=list(want_reps), fin=FIN_NAMES[want_fin],
+                                                                    trace=[[short(x) if isinstance(x, bytes) else x for x in e] for e in want_tr])))
             break
     # correspondence with the model (incremental model on the very chunks)
-    todo = results if model_all else results[:3]
+    todo = results if model_all is True else results[:int(model_all)]
     mouts = ctx.model.batch('c09_run', [model_inputs(case, chunks) for _, chunks, _ in todo])
     for (name, chunks, r), mo in zip(todo, mouts):
         m = canon_model(mo)
         if m['fin'] == 9:
-            ctx.mismatch('model-out-of-fuel', case_json(case, name, chunks), describe(r), m['outs'])
-        elif r['outs'] != m['outs'] or r['fin'] != m['fin']:
-            ctx.mismatch('replies/callbacks/ended', case_json(case, name, chunks),
-                         dict(outs=r['outs'], fin=r['fin'], exc=r.get('exc')), dict(outs=m['outs'], fin=m['fin']))
+            ctx.mismatch('model-out-of-fuel', case_json(case, name), describe(r), m['outs'])
+        elif for_model(r['outs']) != m['outs'] or r['fin'] != m['fin']:
+            ctx.mismatch('replies/callbacks/ended', case_json(case, name),
+                         dict(replies=[list(o[0]) for o in r['outs']], fin=r['fin'], exc=r.get('exc')),
+                         dict(replies=[list(o[0]) for o in m['outs']], fin=m['fin']))
             break
     return base
 
@@ -745,6 +843,104 @@ def short_sessions():
     return S
 
 
+# ---------------------------------------------------------------- long lines at receive-buffer boundaries
+def gen_longline(L, delta, cont, mx):
+    """A session whose first message has ONE text line of L-delta bytes of 'X' that ends in '.' (cont='dot') or in
+    '.text ...' (cont='dottext'), followed by pipelined RSET / MAIL / RCPT / DATA / second message / QUIT.
+    Segmentations: line by line (reference), one burst, fixed read sizes, and two-piece cuts within +-3 bytes of
+    every 4096*k mark counted from the start of the long line and from the start of the stream, and directly
+    before / after the dots."""
+    n = L - delta
+    tail = b'.\r\n' if cont == 'dot' else b'.text of the same long line\r\n'
+    body_lines = [b'Subject: one long line\r\n', b'\r\n', b'X' * n + tail, b'MAIL FROM:<inbody0@x.example>\r\n', b'after the long line\r\n']
+    body = b''.join(body_lines)
+    second = b'second message\r\n'
+    stream = (b'EHLO a.example\r\n' + tx(body, k=0) + b'RSET\r\n' + tx(second, k=1) + b'QUIT\r\n')
+    start = stream.index(b'X' * min(n, 16)) if n else stream.index(tail)
+    dot = start + n
+    eod = stream.index(b'\r\n.\r\n', dot) + 2
+    cuts = set()
+    for base in (start, 0):
+        k = 1
+        while base + 4096 * k <= dot + 3:
+            for d in range(-3, 4):
+                cuts.add(base + 4096 * k + d)
+            k += 1
+    for q in (dot - 1, dot, dot + 1, dot + len(tail), eod, eod + 1, eod + 3):
+        cuts.add(q)
+    cuts = sorted(c for c in cuts if 0 < c < len(stream))
+    segs = [('lines',), ('whole',), ('fixed', 1000), ('fixed', 4095), ('fixed', 4096), ('fixed', 4097)]
+    if L <= 8192:
+        segs.append(('bytes',))
+    segs += [('cuts', [c]) for c in cuts]
+    return dict(stream=stream, mx=mx, vb=KEEP, envs=[], profile='clean', end='quit', roles=[], segs=segs,
+                gen=dict(kind='longline', L=L, delta=delta, cont=cont, max_size=mx),
+                msgs=[dict(k=0, content=body, wire_len=len(body) + 3), dict(k=1, content=second, wire_len=len(second) + 3)])
+
+
+def longline_cases(quick):
+    C = []
+    for L in (4096, 8192, 65536):
+        big = L == 65536
+        deltas = (0, 1) if (big and quick) else (-2, -1, 0, 1, 2, 3)
+        for delta in deltas:
+            for cont in ('dot', 'dottext'):
+                for mx in ((None,) if big and quick else (None, 3000)):
+                    c = gen_longline(L, delta, cont, mx)
+                    if big and quick:        # a sample of the marks: first two, last two, the dots
+                        cs = [x for x in c['segs'] if x[0] == 'cuts']
+                        keep = cs[:14] + cs[-21:]
+                        c['segs'] = [x for x in c['segs'] if x[0] != 'cuts'] + keep
+                    C.append(c)
+    return C
+
+
+# ---------------------------------------------------------------- STARTTLS that leaves the session in clear text
+def gen_starttls(rng, variant):
+    """EHLO .. STARTTLS .. and a whole transaction + QUIT pipelined behind it.  Only a STARTTLS answered 220 may
+    discard what follows (C08; here its handshake fails and the session ends); in every other arm the session
+    goes on in clear text and everything behind the STARTTLS line must be executed, however it is cut."""
+    eol = b'\r\n'
+    ctx_on, vt, line, greet, first = True, KEEP, b'STARTTLS', b'EHLO a.example', False
+    if variant == 'refused':
+        vt = rng.choice([454, 454, 501, 550, 450, 502])
+    elif variant == 'refused-close':
+        vt = rng.choice([421, 221])
+    elif variant == 'hook-raises':
+        vt = RAISE
+    elif variant == 'argument':
+        line = rng.choice([b'STARTTLS now', b'starttls  x'])
+        ctx_on = rng.random() < 0.7
+    elif variant == 'before-ehlo':
+        first = True
+    elif variant == 'not-offered':
+        ctx_on = False
+    elif variant == 'after-helo':
+        greet = b'HELO a.example'
+    elif variant == 'accepted':
+        pass
+    line = rng.choice([line, line.lower(), line + b' ']) if variant not in ('argument',) else line
+    pre = []
+    if rng.random() < 0.4 and not first:
+        pre = [b'MAIL FROM:<after9@x.example>', b'RSET']
+    body = b''.join(_fmt(rng.choice(BODY_TEXT + BODY_CMD), 0) + eol for _ in range(rng.choice([0, 1, 3])))
+    lines = ([line, greet] if first else [greet] + pre + [line])
+    head = b''.join(l + eol for l in lines)
+    rest = tx(body, k=0) + b'MAIL FROM:<after0@x.example>' + eol + b'RSET' + eol + rng.choice([b'QUIT' + eol, b''])
+    stream = head + rest
+    p = len(b''.join(l + eol for l in lines[:lines.index(line) + 1]))        # end of the STARTTLS line
+    extra = [[p], [p + 4], [p + 11], [p - len(line) - 2, p + 4], [p - 1], [p - 2]]
+    extra = [[c for c in cs if 0 < c < len(stream)] for cs in extra]
+    nlines = stream.count(b'\n') + 1
+    return dict(stream=stream, mx=rng.choice([None, 100000, len(body) + 3, max(1, len(body) + 2)]), vb=KEEP, envs=[env(vt=vt) for _ in range(nlines)],
+                profile='clean', end='quit' if stream.endswith(b'QUIT' + eol) else 'eof', roles=[], ctx=ctx_on, vt=vt, variant=variant,
+                extra_cuts=[cs for cs in extra if cs],
+                msgs=[dict(k=0, content=b''.join(undot(l) for l in re.findall(br'[^\n]*\n', body)), wire_len=len(body) + 3)])
+
+
+STARTTLS_VARIANTS = ['refused', 'refused', 'refused', 'refused-close', 'hook-raises', 'argument', 'before-ehlo', 'not-offered', 'after-helo', 'accepted']
+
+
 # ---------------------------------------------------------------- run
 def run(ctx):
     ctx.extra['rule'] = (
@@ -755,6 +951,12 @@ def run(ctx):
         'fatal lines, DATA refused and followed by a body, stream truncated anywhere); every stream x segmentations {one burst, per line, per byte, 3 random cuts, '
         'cut at EVERY position when the stream is <= 60 bytes, else 2 cuts near a line end}; compared across segmentations: exact bytes written, callback trace '
         'with arguments and message content, how the session ended; compared with the model per command line: reply codes, callbacks, end. '
+        'Long lines: a body with ONE line of L-d bytes (L in 4096, 8192, 65536; d in -2..3) ending in "." or ".text", pipelined RSET/second message/QUIT '
+        'behind it, SIZE none/3000, read line by line (reference), in one burst, in 1000/4095/4096/4097-byte reads, bytewise (L <= 8192) and cut in two at every '
+        'offset within 3 bytes of each 4096*k mark (counted from the line start and from the stream start) and directly before/after the dots. '
+        'STARTTLS without handshake: refused by a handlers.STARTTLS hook (454/501/550/450/502, 421/221, raising), with an argument, before EHLO, not offered, '
+        'after HELO, and accepted-with-failing-handshake, each with a transaction + MAIL/RSET + QUIT pipelined behind it, extra cuts right after / inside the '
+        'bytes that follow the STARTTLS line. '
         'Consumers on their own: IO.recv_line (random) and DataReader(io, max_size).recv() (exhaustive over {".",CR,LF,"a"} to the stated length x limits x every '
         'cut; random) incl. exactly which socket pieces were consumed. non-trivial = a stream whose session transferred a message or got an error reply')
     ctx.extra['trusted_base'] = [
@@ -771,6 +973,16 @@ def run(ctx):
     for case in short_sessions():
         check_stream(ctx, case, 'short-every-cut')
     ctx.extra['exhaustive'] = True
+    # 2b. one long line around the 4096 / 8192 / 65536 byte marks, cut at and around the marks and the dots
+    ll = longline_cases(quick)
+    for case in ll:
+        check_stream(ctx, case, 'long-line', model_all=(2 if len(case['stream']) > 20000 else 4))
+    # 2c. STARTTLS that does not lead to a handshake: refused by the hook, argument, before EHLO, not offered
+    nst = 0
+    for rnd in range(3 if quick else 40):
+        for variant in STARTTLS_VARIANTS:
+            check_stream(ctx, gen_starttls(rng, variant), 'starttls-' + variant, nrandom=2)
+            nst += 1
     # 3. generated sessions
     plan = [('clean', 420 if quick else 4000), ('verdicts', 300 if quick else 3000), ('adversarial', 380 if quick else 4000)]
     for profile, n in plan:
@@ -787,6 +999,10 @@ def run(ctx):
         'every cut position of %d session streams of <= 60 bytes (x SIZE limits at/around the message size); DataReader.recv(): every body over '
         '{".",CR,LF,"a"} to length %d (%d bodies) alone and followed by ".CRLF Q CRLF", x limits {none,1,3,size-1,size,size+1}, whole / fully buffered / '
         'bytewise / every single cut' % (len(short_sessions()), 4 if quick else 6, nbody))
+    ctx.dist['long-line-streams'] = len(ll)
+    ctx.dist['starttls-streams'] = nst
+    ctx.note('a STARTTLS answered 220 discards io.recv_buffer before the handshake (RFC 3207; property C08): the one intended dependence on segmentation; '
+             'here its handshake always fails and the session ends, every other STARTTLS arm must leave the stream alone')
     ctx.note('size of a message for the SIZE limit (after fix d13): number of bytes up to and including its end-of-data line, wherever they were buffered')
     ctx.note('HELO after EHLO wipes the SIZE extension (Extensions.reset()): the limit is no longer enforced in that session (noted by C07; consistent across segmentations)')
 
@@ -812,17 +1028,26 @@ def replay(ctx, case):
         buf, chunks = un(c['recv_buffer']), [un(x) for x in c['chunks']]
         print('IO.recv_line recv_buffer=%r chunks=%r -> %r' % (buf, chunks, impl_recv_line(buf, chunks)))
         return 0
-    envs = [dict(v1=e[0], v2=e[1], v3=e[2], q=e[3], qkind='queue') for e in c.get('envs', [])]
-    kc = dict(mx=c['max_size'], vb=c.get('banner_verdict', KEEP), envs=envs)
-    print('client stream (%d bytes), SIZE limit %r:\n  %r' % (len(un(c['stream'])), c['max_size'], un(c['stream'])))
-    for label, key in (('segmentation', 'chunks'), ('other segmentation', 'other_chunks')):
+    envs = [dict(v1=e[0], v2=e[1], v3=e[2], q=e[3], qkind='queue', vt=(e[4] if len(e) > 4 else KEEP), tls=0) for e in c.get('envs', [])]
+    if c.get('gen'):
+        g = c['gen']
+        stream = gen_longline(g['L'], g['delta'], g['cont'], g['max_size'])['stream']
+        print('generated stream: one body line of %d-%d bytes of "X" ending in %s, then RSET / second message / QUIT' % (
+            g['L'], g['delta'], '".CRLF"' if g['cont'] == 'dot' else '".text...CRLF"'))
+    else:
+        stream = un(c['stream'])
+    kc = dict(mx=c['max_size'], vb=c.get('banner_verdict', KEEP), envs=envs, ctx=bool(c.get('context')))
+    print('client stream (%d bytes), SIZE limit %r, STARTTLS %s:\n  %r' % (len(stream), c['max_size'], 'offered' if kc['ctx'] else 'not offered', short(stream, 700)))
+    for key in ('segmentation', 'other_segmentation'):
         if key not in c:
             continue
-        chunks = [un(x) for x in c[key]]
-        r = run_impl(kc['mx'], kc['vb'], kc['envs'], chunks)
-        print('%s %s: %d recv() results, first %r' % (label, c.get(label.replace(' ', '_')), len(chunks), chunks[:3]))
-        print('  server wrote : %r' % r['sent'])
-        print('  callbacks    : %r' % (r['trace'],))
+        spec = tuple(c[key])
+        chunks = build_chunks(stream, spec)
+        r = run_impl(kc['mx'], kc['vb'], kc['envs'], chunks, kc['ctx'])
+        print('%s [%s]: %d recv() results of %s bytes' % (key, seg_name(spec), len(chunks), sorted(set(len(x) for x in chunks))[-4:]))
+        print('  replies      : %r' % ([list(o[0]) for o in r['outs']],))
+        print('  server wrote : %r' % short(r['sent'], 900))
+        print('  callbacks    : %r' % ([tuple(short(x, 80) if isinstance(x, bytes) else x for x in e) for e in r['trace']],))
         print('  session ended: %s' % FIN_NAMES[r['fin']])
         if ctx.model:
             m = canon_model(ctx.model.call('c09_run', model_inputs(kc, chunks)))
